@@ -245,7 +245,7 @@ func checkC01(P *Prog, r *Result) {
 			r.ok("C01/child-clean", names[i], P.ipos(s.in.(ssa.Instruction)), "CanCatch, Exit, HasCaught definitely false at dispatch")
 		}
 	}
-	r.floor("C01/child-clean", 30)
+	r.floor("C01/child-clean", 15)
 	cntU := map[string]int{}
 	for _, s := range P.ownUseSites(ca) {
 		top := s.at.Parent()
@@ -261,7 +261,7 @@ func checkC01(P *Prog, r *Result) {
 			r.ok("C01/own-context-clean", c, P.ipos(s.at), "own context is catch-clean")
 		}
 	}
-	r.floor("C01/own-context-clean", 20)
+	r.floor("C01/own-context-clean", 10)
 	r.Extra["schema_ctx_constructors"] = len(ca.ctors)
 	if len(ca.ctors) < 2 {
 		r.broken("vacuous: %d SchemaCtx constructors recognised (floor 2)", len(ca.ctors))
@@ -473,12 +473,40 @@ func (P *Prog) predicateWrappers() []wrapperInfo {
 			if f == nil || !sameField(f, funcField) {
 				return
 			}
-			mc, ok := st.Val.(*ssa.MakeClosure)
-			if !ok {
+			// the stored closure: a literal, or the result of a closure factory (`issueUnless(fn, true)`)
+			// whose parameters are then bound to the actual arguments
+			var cl *ssa.Function
+			env := map[ssa.Value]ssa.Value{}
+			switch x := cv(st.Val).(type) {
+			case *ssa.MakeClosure:
+				cl = x.Fn.(*ssa.Function)
+			case *ssa.Call:
+				if fac := callOf(x).static; fac != nil && fac.Blocks != nil && inModule(funcPkgPath(fac)) {
+					var made *ssa.MakeClosure
+					nRet := 0
+					eachInstr(fac, func(_ *ssa.BasicBlock, _ int, in2 ssa.Instruction) {
+						if rt, ok := in2.(*ssa.Return); ok && len(rt.Results) == 1 {
+							nRet++
+							if m, ok := cv(rt.Results[0]).(*ssa.MakeClosure); ok {
+								made = m
+							}
+						}
+					})
+					if made != nil && nRet == 1 {
+						cl = made.Fn.(*ssa.Function)
+						for k, prm := range fac.Params {
+							if k < len(x.Call.Args) {
+								env[prm] = cv(x.Call.Args[k])
+							}
+						}
+					}
+				}
+			}
+			if cl == nil {
 				return
 			}
-			cl := mc.Fn.(*ssa.Function)
-			// the predicate: a captured func value of bool result called by the closure (or a helper it calls)
+			// the predicate: a func value of bool result, captured by the closure or a parameter of the
+			// wrapper constructor, called by the closure (or a helper it calls)
 			isPredCall := func(v ssa.Value) bool {
 				c, ok := v.(*ssa.Call)
 				if !ok || !callOf(c).dynamic {
@@ -493,12 +521,25 @@ func (P *Prog) predicateWrappers() []wrapperInfo {
 				case *ssa.UnOp:
 					fv, isFV := x.X.(*ssa.FreeVar)
 					return x.Op == token.MUL && isFV && fv.Parent() == cl
+				case *ssa.Parameter:
+					return x.Parent() == fn
 				}
 				return isLoadOfFreeVar(c.Call.Value)
 			}
 			spec := &pathSpec{name: "predicate-wrapper"}
 			spec.cond = func(iff *ssa.If) (string, string, string) {
 				c, neg := condKey(iff.Cond)
+				// `pred(...) == <constant>` is the predicate or its negation
+				if bo, ok := c.(*ssa.BinOp); ok && (bo.Op == token.EQL || bo.Op == token.NEQ) {
+					for _, pr := range [][2]ssa.Value{{bo.X, bo.Y}, {bo.Y, bo.X}} {
+						if k, isK := constBool(cv(pr[1])); isK && isPredCall(cv(pr[0])) {
+							c = cv(pr[0])
+							if (bo.Op == token.EQL) != k {
+								neg = !neg
+							}
+						}
+					}
+				}
 				if !isPredCall(c) {
 					return "", "", ""
 				}
@@ -531,7 +572,7 @@ func (P *Prog) predicateWrappers() []wrapperInfo {
 				}
 				return []pathItem{{kind: "ISSUE", val: v, in: in2}}
 			}
-			res := P.enumPathsSpec(cl, nil, spec)
+			res := P.enumPathsSpec(cl, env, spec)
 			hasPred, nAddMax := false, 0
 			issueOn := map[string]map[int]bool{"T": {}, "F": {}, "": {}}
 			argsOK := true
@@ -684,7 +725,7 @@ func checkC05(P *Prog, r *Result) {
 			}
 		}
 	}
-	r.floor("C05/confinement", 60)
+	r.floor("C05/confinement", 30)
 
 	// own-context-clean: kinds without Catch (struct, slice, pointer, custom, preprocess) report their own
 	// issues, call their own tests/transforms and test Exit on their own context: none of the flags may have
@@ -705,7 +746,7 @@ func checkC05(P *Prog, r *Result) {
 			r.ok("C05/own-context-clean", c, P.ipos(s.at), "own context is catch-clean")
 		}
 	}
-	r.floor("C05/own-context-clean", 20)
+	r.floor("C05/own-context-clean", 10)
 
 	// flag-writers
 	allowed := map[*ssa.Function]bool{}
@@ -766,7 +807,7 @@ func checkC05(P *Prog, r *Result) {
 			r.bad("C05/flag-writers", c, P.ipos(in), "unexpected write of a catch flag in a pipeline")
 		})
 	}
-	r.floor("C05/flag-writers", 9)
+	r.floor("C05/flag-writers", 4)
 
 	// swallow-implies-catch-store
 	for _, pl := range R.Pipelines {
@@ -808,7 +849,7 @@ func checkC05(P *Prog, r *Result) {
 			r.ok("C05/no-direct-sink", fname(fn), P.pos(fn.Pos()), "all issues go through (*SchemaCtx).AddIssue")
 		}
 	}
-	r.floor("C05/no-direct-sink", 20)
+	r.floor("C05/no-direct-sink", 10)
 }
 
 // checkSwallow: in a primitive pipeline, (1) every store *dest = *catch is
@@ -816,100 +857,79 @@ func checkC05(P *Prog, r *Result) {
 // (true) is preceded by such a store in the same guarded region; (3) every
 // failure condition (required issue, coerce issue, Exit) has a CanCatch branch.
 func (P *Prog) checkSwallow(r *Result, fn *ssa.Function) {
-	R := P.roles
 	r.sawFunc(fname(fn))
-	isCanCatchGuard := func(b *ssa.BasicBlock) bool {
-		for _, gd := range guardsOf(b) {
-			if _, f := loadOfField(cv(gd.If.Cond)); f != nil && sameField(f, R.FCanCatch) && gd.True {
-				return true
-			}
-		}
-		return false
+	paths, capHit := P.nodePaths(fn)
+	if capHit {
+		r.undecided("C05/swallow-implies-catch-store", fname(fn), P.pos(fn.Pos()), "too many paths to enumerate")
+		return
 	}
+	// Decided on the pipeline's decision paths (helpers such as a shared test-loop entered):
+	// atoms CANCATCH / EXIT, events DEST=catch (a store of *catch into the node's destination), ISSUE, CALL-TEST.
 	var problems []string
-	nStores := 0
-	catchBlocks := map[*ssa.BasicBlock]bool{}
-	eachInstr(fn, func(b *ssa.BasicBlock, _ int, in ssa.Instruction) {
-		st, ok := in.(*ssa.Store)
-		if !ok {
-			return
-		}
-		u, ok := st.Val.(*ssa.UnOp)
-		if !ok || u.Op != token.MUL || P.roleOf(u.X) != "catch" {
-			return
-		}
-		nStores++
-		catchBlocks[b] = true
-		if !isCanCatchGuard(b) {
-			problems = append(problems, fmt.Sprintf("catch value stored at %s on a path not guarded by CanCatch: a passing node may lose its parsed value", P.ipos(in)))
-		}
-		// destination must be the node's destination pointer
-		isDest := false
-		for _, rt := range P.rootsOf(st.Addr) {
-			if P.classify(rt).class == mcDest {
-				isDest = true
-			}
-		}
-		if !isDest {
-			problems = append(problems, fmt.Sprintf("catch value stored at %s into something other than the node's destination", P.ipos(in)))
-		}
-	})
-	// every return under a CanCatch(true) guard has a catch store in its guarded region
-	for _, b := range fn.Blocks {
-		if !isExit(b) || !isCanCatchGuard(b) {
-			continue
-		}
-		// find a catch-store block that dominates or equals b within the guard
-		okb := false
-		for cb := range catchBlocks {
-			if cb == b || cb.Dominates(b) {
-				okb = true
-			}
-		}
-		if !okb {
-			problems = append(problems, fmt.Sprintf("return at %s is taken because the node can catch, but the catch value was not stored into the destination", P.ipos(b.Instrs[len(b.Instrs)-1])))
-		}
-	}
-	// every issue emission in the pipeline (AddIssue) must be on the CanCatch==false side of a CanCatch test,
-	// or be unconditional on CanCatch (then AddIssue swallows and the later Exit test must catch)
-	eachInstr(fn, func(b *ssa.BasicBlock, _ int, in ssa.Instruction) {
-		if !P.isAddIssue(callOf(in)) {
-			return
-		}
-		guardedFalse := false
-		for _, gd := range guardsOf(b) {
-			if _, f := loadOfField(cv(gd.If.Cond)); f != nil && sameField(f, R.FCanCatch) && !gd.True {
-				guardedFalse = true
-			}
-		}
-		if !guardedFalse {
-			problems = append(problems, fmt.Sprintf("issue emitted at %s without first testing CanCatch: with Catch set the issue is swallowed but the destination does not receive the catch value", P.ipos(in)))
-		}
-	})
-	// the test loop must test Exit then CanCatch and store catch
-	exitTested := false
-	for _, b := range fn.Blocks {
-		if iff := condOf(b); iff != nil {
-			if _, f := loadOfField(cv(iff.Cond)); f != nil && sameField(f, R.FExit) {
-				// true successor must (transitively, within guard) contain a CanCatch test leading to a catch store
-				for cb := range catchBlocks {
-					if edgeDominates(b, 0, cb) {
-						exitTested = true
+	stores := map[ssa.Instruction]bool{}
+	exitCaught := false
+	for _, p := range paths {
+		lastCan := "" // value of the most recent CanCatch test
+		for i, it := range p.items {
+			switch {
+			case it.kind == "CANCATCH":
+				lastCan = it.val
+				if it.val == "T" {
+					// the catching side must store the catch value before anything else observable happens
+					stored := false
+					for _, nx := range p.items[i+1:] {
+						if nx.kind == "DEST" && nx.val == "catch" {
+							stored = true
+							break
+						}
+						if nx.kind == "ISSUE" || nx.kind == "CALL-TEST" || nx.kind == "TESTS" || nx.kind == "CHILD" || nx.kind == "CANCATCH" {
+							break
+						}
+					}
+					if !stored {
+						problems = append(problems, fmt.Sprintf("the path taken because the node can catch (%s) does not store the catch value into the destination  [path: %s]", P.ipos(it.in), p.String()))
+					}
+				}
+			case it.kind == "DEST" && it.val == "catch":
+				stores[it.in] = true
+				if lastCan != "T" {
+					problems = append(problems, fmt.Sprintf("catch value stored at %s on a path not guarded by CanCatch: a passing node may lose its parsed value", P.ipos(it.in)))
+				}
+			case it.kind == "ISSUE":
+				if lastCan != "F" {
+					problems = append(problems, fmt.Sprintf("issue emitted at %s without first testing CanCatch: with Catch set the issue is swallowed but the destination does not receive the catch value", P.ipos(it.in)))
+				}
+			case it.kind == "CALL-TEST":
+				// after a test ran: Exit is tested, and on Exit the catching node stores its catch value
+				var nx *pathItem
+				for k := i + 1; k < len(p.items); k++ {
+					if kd := p.items[k].kind; kd != "COND" && !strings.HasPrefix(kd, "FLAG-") {
+						nx = &p.items[k]
+						break
+					}
+				}
+				if nx == nil || nx.kind != "EXIT" {
+					problems = append(problems, fmt.Sprintf("ctx.Exit is not tested after the test called at %s: a failed test of a catching node leaves the failing value in the destination", P.ipos(it.in)))
+				}
+			case it.kind == "EXIT" && it.val == "T":
+				for _, nx := range p.items[i+1:] {
+					if nx.kind == "DEST" && nx.val == "catch" {
+						exitCaught = true
 					}
 				}
 			}
 		}
 	}
-	if !exitTested {
+	if !exitCaught {
 		problems = append(problems, "no `if ctx.Exit { if ctx.CanCatch { *dest = *catch } }` after running a test: a failed test of a catching node leaves the failing value in the destination")
 	}
-	if nStores < 2 {
-		problems = append(problems, fmt.Sprintf("only %d catch stores found (required-failure, [coerce-failure,] test-failure expected)", nStores))
+	if len(stores) < 2 {
+		problems = append(problems, fmt.Sprintf("only %d catch stores found (required-failure, [coerce-failure,] test-failure expected)", len(stores)))
 	}
 	if len(problems) > 0 {
-		r.bad("C05/swallow-implies-catch-store", fname(fn), P.pos(fn.Pos()), strings.Join(problems, "; "))
+		r.bad("C05/swallow-implies-catch-store", fname(fn), P.pos(fn.Pos()), strings.Join(uniqSorted(problems), "; "))
 	} else {
-		r.ok("C05/swallow-implies-catch-store", fname(fn), P.pos(fn.Pos()), fmt.Sprintf("%d catch stores, all under CanCatch; every CanCatch return preceded by one; every issue emission on the CanCatch==false side", nStores))
+		r.ok("C05/swallow-implies-catch-store", fname(fn), P.pos(fn.Pos()), fmt.Sprintf("%d catch stores, all under CanCatch; every CanCatch path stores the catch value first; every issue emission on the CanCatch==false side; Exit tested after every test", len(stores)))
 	}
 }
 
@@ -984,7 +1004,7 @@ func checkC09(P *Prog, r *Result) {
 	P.checkIssueContainerReads(r, "C09/issue-container-reads")
 	P.checkReflectMapIteration(r, "C09/reflect-map-iteration")
 	r.Instances["C09/map-range-loops"] = nLoops
-	r.floor("C09/map-range-loops", 7)
+	r.floor("C09/map-range-loops", 3)
 	_ = R
 }
 
@@ -1341,7 +1361,7 @@ func (P *Prog) checkIssueContainerReads(r *Result, rule string) {
 			r.ok(rule, fname(nf), P.pos(nf.Pos()), "the issue container is read only by the deferred post-transform gate")
 		}
 	}
-	r.floor(rule, 20)
+	r.floor(rule, 10)
 }
 
 // checkReflectMapIteration: iterating a map through reflection (MapRange,
